@@ -138,9 +138,16 @@ pub fn file_id(a: &EmmyLuaAnalysis, name: &str) -> Option<FileId> {
 
 pub const NAME_PROBES: &[&str] = &["G", "H", "K", "gf", "gh", "Foo", "Bar", "Baz", "En", "Color", "a", "b", "c", "m", "n", "A", "B"];
 
+/// dump used by the history checks C08-C10 (mismatch explanations stripped, see `DumpOpts`)
 pub fn dump_of(a: &EmmyLuaAnalysis, dead: &[(FileId, String)]) -> Dump {
     let b = base();
-    dump::dump(a, &DumpOpts { base: &b, dead, module_probes: wsgen::MODULES, name_probes: NAME_PROBES })
+    dump::dump(a, &DumpOpts { base: &b, dead, module_probes: wsgen::MODULES, name_probes: NAME_PROBES, strip_mismatch_reason: true })
+}
+
+/// full dump (C11)
+pub fn dump_full(a: &EmmyLuaAnalysis) -> Dump {
+    let b = base();
+    dump::dump(a, &DumpOpts { base: &b, dead: &[], module_probes: wsgen::MODULES, name_probes: NAME_PROBES, strip_mismatch_reason: false })
 }
 
 /// a fresh analysis of `files` (registration order = slice order) through one batch update
@@ -251,18 +258,75 @@ pub fn open_sigs(prop: &str) -> Vec<String> {
 }
 
 /// Candidate failures from comparing a reference dump with the dump under judgement: one per differing
-/// section, root-cause sections first; `diag` is only a candidate when `sem` agrees (a semantic
-/// difference explains diagnostics differences).
+/// index-level section; if none of those differs, the first differing computed section.
 pub fn dump_candidates(prefix: &str, reference: &Dump, got: &Dump) -> Vec<(String, String)> {
     let diffs = reference.diff(got);
-    let sem_differs = diffs.iter().any(|d| d.section == "sem");
     let mut out = vec![];
+    let is_root = |d: &dump::Diff| dump::ROOT_SECTIONS.contains(&d.section.as_str());
+    let any_root = diffs.iter().any(is_root);
+    if std::env::var("VERIF_DEBUG_DIFF").is_ok() {
+        eprintln!("--- full diff ({prefix})\n{}", dump::render_diffs(&diffs, 200));
+    }
+    // names with global declarations in >= 2 files: the declaration list of such a name is kept in analysis
+    // order and "the first declaration" decides definition, type and member ownership (C08-F5).  If every
+    // differing line (diagnostics aside) is about such a name, that is the root cause.
+    let mut multi: Vec<String> = vec![];
+    if let Some(globals) = reference.sections.get("global") {
+        let mut seen: Vec<(String, String)> = vec![];
+        for g in globals {
+            let name = g.split(" at ").next().unwrap_or("").to_string();
+            let file = g.split(" at ").nth(1).unwrap_or("").split('@').next().unwrap_or("").to_string();
+            if seen.iter().any(|(n, f)| *n == name && *f != file) && !multi.contains(&name) {
+                multi.push(name.clone());
+            }
+            seen.push((name, file));
+        }
+    }
+    let mentions = |line: &String| -> bool { line.split(|c: char| !(c.is_alphanumeric() || c == '_')).any(|w| multi.iter().any(|m| m == w)) };
+    let about_multi = |d: &dump::Diff| -> bool { !multi.is_empty() && d.only_left.iter().chain(d.only_right.iter()).all(mentions) };
+    if !any_root {
+        if let Some(d) = diffs.iter().find(|d| d.section == "sem") {
+            let k = dump::classify_with(&[d.clone()], Some(reference));
+            if k == "sem:global-decl-switched" || k == "sem:multi-decl-global-type-changed" || about_multi(d) {
+                return vec![(format!("{prefix}multi-decl-global-order"), dump::render_diffs(&diffs, 10))];
+            }
+        }
+    }
+    if any_root && diffs.iter().filter(|d| is_root(d)).all(dump::additions_or_type_only) && diffs.iter().filter(|d| is_root(d)).any(|d| d.only_right.len() > d.only_left.len()) {
+        // at index level nothing disappeared or changed, facts were only added (computed sections follow
+        // from them): the state under judgement has resolved more than the reference
+        return vec![(format!("{prefix}resubmit-resolves-more"), dump::render_diffs(&diffs, 10))];
+    }
     for d in &diffs {
-        if d.section == "diag" && sem_differs {
+        if !is_root(d) && (any_root || !out.is_empty()) {
+            // computed sections (minfo, ref, sem, diag) follow from the index-level sections; they are
+            // judged only when no index-level section differs, and then only the first of them
+            continue;
+        }
+        if d.section == "desc" {
+            // the documentation of a member / global that itself appeared or disappeared follows from that
+            let follows = |line: &String| -> bool {
+                (line.starts_with("member:") && diffs.iter().any(|x| x.section == "member")) || (line.starts_with("global:") && diffs.iter().any(|x| x.section == "global"))
+            };
+            let mut f = d.clone();
+            f.only_left.retain(|l| !follows(l));
+            f.only_right.retain(|l| !follows(l));
+            if f.only_left.is_empty() && f.only_right.is_empty() {
+                continue;
+            }
+            let one = vec![f];
+            out.push((format!("{prefix}{}", dump::classify_with(&one, Some(reference))), dump::render_diffs(&one, 10)));
             continue;
         }
         let one = vec![d.clone()];
-        out.push((format!("{prefix}{}", dump::classify(&one)), dump::render_diffs(&one, 10)));
+        if is_root(d) && d.section != "desc" && about_multi(d) {
+            let sig = format!("{prefix}multi-decl-global-order");
+            if !out.iter().any(|o: &(String, String)| o.0 == sig) {
+                out.push((sig, dump::render_diffs(&one, 10)));
+            }
+            continue;
+        }
+        out.push((format!("{prefix}{}", dump::classify_with(&one, Some(reference))), dump::render_diffs(&one, 10)));
     }
     out
 }
